@@ -174,11 +174,29 @@ static void case_kron(ByteSource& in, CaseInfo& ci) {
   if (!B.is_odd()) ci.label("kron:b_even"); if (B.neg) ci.label("kron:b_negative"); if (B.is_zero()) ci.label("kron:b_zero"); if (e == 0) ci.label("kron:zero"); if (A.neg && B.neg) ci.label("kron:both_negative");
   REQUIRE(got == e, "%s: returned %d, expected %d", names[f], got, e);
 }
+
+// ---- exhaustive sweep: every (a,b) in [-64,64]^2 ------------------------------------------------------------------
+static uint64_t sweep_count() { return 129ull * 129ull; }
+static void sweep_item(uint64_t i, CaseInfo& ci) {
+  long av = (long)(i / 129) - 64, bv = (long)(i % 129) - 64; ci.d("a=%ld b=%ld", av, bv); Int A((long long)av), B((long long)bv); Int G = ref::gcd(A, B);
+  Z a, b, g, s, t; mpz_set_si(a, av); mpz_set_si(b, bv);
+  mpz_gcd(g, a, b); REQUIRE(int_from_mpz(g) == G, "mpz_gcd(%ld,%ld)", av, bv);
+  mpz_gcdext(g, s, t, a, b); certify("mpz_gcdext", A, B, int_from_mpz(g), int_from_mpz(s), int_from_mpz(t)); REQUIRE(int_from_mpz(g) == G, "mpz_gcdext(%ld,%ld): gcd", av, bv); check_cofactor_rules(A, B, G, int_from_mpz(s), int_from_mpz(t), ci);
+  mpz_lcm(g, a, b); REQUIRE(int_from_mpz(g) == ((av == 0 || bv == 0) ? Int(0) : ref::tdiv((A * B).abs(), G)), "mpz_lcm(%ld,%ld)", av, bv);
+  if (bv >= 0) { unsigned long r = mpz_gcd_ui(g, a, (unsigned long)bv); REQUIRE(int_from_mpz(g) == G && Int::from_u64(r) == G, "mpz_gcd_ui(%ld,%ld)", av, bv); mpz_lcm_ui(g, a, (unsigned long)bv); REQUIRE(int_from_mpz(g) == ((av == 0 || bv == 0) ? Int(0) : ref::tdiv((A * B).abs(), G)), "mpz_lcm_ui(%ld,%ld)", av, bv); }
+  if (std::labs(bv) > 1) { int rc = mpz_invert(g, a, b); bool ex = G == Int(1); REQUIRE((rc != 0) == ex, "mpz_invert(%ld,%ld): existence", av, bv); if (ex) { Int R = int_from_mpz(g); REQUIRE(!R.neg && ref::cmpabs(R, B) < 0 && ref::emod(A * R, B) == Int(1), "mpz_invert(%ld,%ld): value", av, bv); } }
+  int e = ref::kronecker(A, B);
+  REQUIRE(mpz_jacobi(a, b) == e, "mpz_kronecker(%ld,%ld): expected %d", av, bv, e); REQUIRE(mpz_kronecker_si(a, bv) == e, "mpz_kronecker_si(%ld,%ld)", av, bv); REQUIRE(mpz_si_kronecker(av, b) == e, "mpz_si_kronecker(%ld,%ld)", av, bv);
+  if (bv >= 0) REQUIRE(mpz_kronecker_ui(a, (unsigned long)bv) == e, "mpz_kronecker_ui(%ld,%ld)", av, bv); if (av >= 0) REQUIRE(mpz_ui_kronecker((unsigned long)av, b) == e, "mpz_ui_kronecker(%ld,%ld)", av, bv);
+  if (bv > 2 && (bv & 1) && ref::is_prime_u64((uint64_t)bv)) REQUIRE(mpz_legendre(a, b) == e, "mpz_legendre(%ld,%ld)", av, bv);
+  if (av != 0 && bv > 0) { unsigned long r = mpn_gcd_1((const mp_limb_t[]){(mp_limb_t)std::labs(av)}, 1, (mp_limb_t)bv); REQUIRE(Int::from_u64(r) == G, "mpn_gcd_1(%ld,%ld)", av, bv); }
+}
 static void check(ByteSource& in, CaseInfo& ci) {
   switch (in.pick({8, 2, 3, 5, 6})) { case 0: case_mpz_gcd(in, ci); break; case 1: case_ui(in, ci); break; case 2: case_invert(in, ci); break; case 3: case_mpn(in, ci); break; default: case_kron(in, ci); break; }
 }
 namespace eng {
 PropDef g_prop = {"C07",
   "Cases: mpz_gcd / mpz_gcdext (incl. t=NULL, outputs aliasing inputs) / mpz_lcm / mpz_gcd_ui / mpz_lcm_ui / mpz_invert (|m|>1, both signs, a outside [0,|m|)) / mpn_gcd (s2 odd, s1 >= s2 in bits, copies passed) / mpn_gcdext (U>=V>0, xn+1 limb areas) / mpn_gcd_1 / mpz_jacobi (=kronecker), mpz_legendre (odd primes), the four mixed kronecker entry points (all sign and parity combinations, b=0,+-1,+-2, 2-adic valuations crossing limbs). Operand pairs: g*(x,y) with (x,y) coprime built backwards from a chosen quotient sequence (mixed sizes, runs of 1 = Fibonacci-like, one huge partial quotient), planted g (1, 2^k, multi-limb), random pairs of different sizes, a=b, b|a, |b|=2g, zero operands, neighbours; sizes around HGCD/GCDEXT_DC/GCD_DC thresholds up to the scale cap. Oracle: refint: g>=0, g|a, g|b, a*s+b*t=g (certificate), the manual's cofactor bounds and exceptional cases, lcm=|ab|/g, inverse in [0,|m|) with a*r=1 mod m, textbook Kronecker recursion; gcd of large random pairs is taken from a refint-verified certificate. Non-trivial: both operands >= 2 limbs. Distinct = hash of all decoded choices.",
-  check, nullptr, {"a_eq_b", "b_divides_a", "b_eq_2g", "fib_like", "huge_partial_quotient", "above_hgcd_threshold", "above_gcd_dc_threshold", "rule:|a|=|b|", "rule:s=sgn(a)", "rule:t=sgn(b)", "kron:b_even", "kron:b_negative", "kron:b_zero", "kron:zero", "invert:none", "planted_big_g"}};
+  check, nullptr, {"a_eq_b", "b_divides_a", "b_eq_2g", "fib_like", "huge_partial_quotient", "above_hgcd_threshold", "above_gcd_dc_threshold", "rule:|a|=|b|", "rule:s=sgn(a)", "rule:t=sgn(b)", "kron:b_even", "kron:b_negative", "kron:b_zero", "kron:zero", "invert:none", "planted_big_g"}, nullptr, sweep_count, sweep_item,
+  "every (a,b) in [-64,64]^2: mpz_gcd, mpz_gcdext (certificate, cofactor bounds and all exceptional cases of the manual), mpz_lcm, mpz_gcd_ui/lcm_ui (b>=0), mpz_invert (|b|>1), mpz_jacobi/kronecker and the four mixed kronecker entry points, mpz_legendre for odd prime b, mpn_gcd_1"};
 }
